@@ -376,7 +376,7 @@ impl<'a> StringParser<'a> {
                     };
                     return Ok(ret);
                 }
-                '"' | '\'' => {
+                '"' | '\'' if !self_documenting => {
                     expression.push(ch);
                     // a triple-quoted string ends at the same three quotes, not at the next quote
                     let mut ahead = self.chars.clone();
